@@ -26,7 +26,7 @@ type TrustStore struct {
 	Certs map[string][]*x509.Certificate
 	Errs  map[string]error
 	Empty map[string]bool // stores that load successfully with zero certificates
-	Calls []string // "type:name" in call order
+	Calls []string        // "type:name" in call order
 }
 
 // NewTrustStore returns an empty scripted trust store.
